@@ -252,6 +252,10 @@ class SerializerBase(object):
             # these are a plain sequence and a plain dict; never iterate over anything else here
             # (nested class dicts have been turned into objects already, and a Proxy would go and call its daemon)
             raise errors.SerializeError("invalid args or attributes in serialized exception")
+        if len(args) == 2 and type(args[1]) not in (list, tuple) and \
+                issubclass(exceptiontype, (SyntaxError, getattr(builtins, "BaseExceptionGroup", SyntaxError))):
+            # (given exactly two arguments, the constructors of these classes unpack the second one)
+            raise errors.SerializeError("invalid args or attributes in serialized exception")
         ex = exceptiontype(*args)
         # restore custom attributes on the exception object
         for attr, value in attributes.items():
